@@ -20,7 +20,10 @@ RULE = ("cases: spl k segment_size threads contigs (reference = contigs of numer
         "single contig over {0,1,4} up to length 6 (quick) / 8 (thorough) and every pair of contigs up to length 2/3, "
         "k in {2,3}, segment_size in {0,2,4}; random references: 1..7 contigs, N runs, IUPAC codes and code 30, internal and "
         "cross-contig repeats, duplicated contigs, reverse-complemented copies, contigs shorter than k, low-complexity "
-        "contigs, k in 1..32, segment_size 0..200 and 60000, threads 1..16. non-trivial = at least one splitter "
+        "contigs, k in 1..32, segment_size 0..200 and 60000, threads 1..16; big k seg t1 t2 ref: 6 (quick) / 40 (thorough) "
+        "references of 66k..300k bases with runs of 2 and 3 equal k-mers (duplicated / reverse-complemented / partially "
+        "repeated contigs) under two thread counts, judged by the oracle only (the list-based Coq model is not run on "
+        "them). non-trivial = at least one splitter "
         "returned; distinct = distinct case line")
 TRUSTED = ["python oracle in checks/c11.py (from-scratch packing and counting of canonical k-mers, the laws of the property)",
            "rayon's par_iter().map().collect() returns the results in the order of the input slice (modelled as map); "
@@ -66,6 +69,28 @@ def kmers_of(c, k):
         run = run + 1 if b < 4 else 0
         if run >= k:
             out.append(kcanon(c[i + 1 - k:i + 1], k))
+    return out
+
+
+def kmers_of_fast(c, k):
+    """same values as kmers_of, by rolling the two packings (used for the large references only; the first windows are
+    cross-checked against kmers_of on every call)"""
+    out = []
+    mask = (1 << (2 * k)) - 1
+    sh = 64 - 2 * k
+    fwd = rc = run = 0
+    for b in c:
+        if b < 4:
+            run += 1
+            fwd = ((fwd << 2) | b) & mask
+            rc = (rc >> 2) | ((3 - b) << (2 * (k - 1)))
+            if run >= k:
+                out.append(min(fwd, rc) << sh)
+        else:
+            run = fwd = rc = 0
+    head = kmers_of(c[:k + 200], k)
+    if out[:len(head)] != head:
+        raise AssertionError("kmers_of_fast disagrees with kmers_of")
     return out
 
 
@@ -191,6 +216,41 @@ def rand_case(rng, budget=900):
     return pair_case("both", k, seg, t, t2, ref, r2)
 
 
+def big_case(rng):
+    """a reference with more than 65536 k-mers (rayon's work splitting, block-wise scans and radix-sort thresholds
+    only come into play there), with repeated k-mers in runs of 2 and 3 at random alignments: duplicated,
+    reverse-complemented and partially repeated contigs; two thread counts on the same reference.  The Coq model
+    (list-based membership, quadratic) is not run on these: the theorems are size-independent and the answer is
+    judged by the independent oracle (canon maps the line to a constant on both sides)."""
+    k = rng.choice([21, 15, 31, 17, 12, 32])
+    n = rng.choice([66000, 70021, 90001, 131100, 150000]) + rng.randint(0, 40)
+    a = [rng.randint(0, 3) for _ in range(n)]
+    for _ in range(rng.randint(0, 3)):                         # a few N runs
+        p = rng.randrange(n)
+        a[p:p + rng.choice([1, 3, 10])] = [4] * rng.choice([1, 3, 10])
+    shape = rng.random()
+    if shape < 0.35:
+        ref = [a, revcomp(a)]
+    elif shape < 0.6:
+        m = rng.randrange(n // 3, n)
+        ref = [a, list(a[:m]), revcomp(a[m // 2:])]            # runs of 2 and 3
+    elif shape < 0.8:
+        b = [rng.randint(0, 3) for _ in range(rng.randint(1000, 40000))]
+        ref = [a, b, list(a), revcomp(b[len(b) // 3:])]
+    else:
+        ref = [a + revcomp(a[: rng.randrange(k, n)])]          # one contig, inverted repeat inside
+    if rng.random() < 0.5:
+        rng.shuffle(ref)
+    seg = rng.choice([1000, 60000, 200, 5000])
+    t1 = rng.choice([2, 2, 3, 4, 5, 7, 8, 16])
+    t2 = rng.choice([1, 1, 2, 3, 6])
+    return f"big {k} {seg} {t1} {t2} {ref_str(ref)}"
+
+
+def canon(case_, line):
+    return "not-modelled" if case_.startswith("big ") else line
+
+
 def gen_exhaustive(l1, l2):
     cs = []
     alpha = (0, 1, 4)
@@ -242,6 +302,8 @@ def gen_cases(rng, tier):
         k = rng.randint(1, 8)
         ref = rand_reference(rng, k, 120)
         cs.append(f"cand {k} {ref_str(ref if rng.random() < 0.6 else ref[:1])}")
+    for _ in range(6 if tier == "quick" else 40):
+        cs.append(big_case(rng))
     return cs
 
 
@@ -256,7 +318,7 @@ def parse_answer(a):
 
 def nontrivial(case_, impl):
     t = case_.split()
-    if t[0] in ("spl", "pair"):
+    if t[0] in ("spl", "pair", "big"):
         return "S=-" not in impl.split(" | ")[0].split()[:1]
     return True
 
@@ -271,7 +333,7 @@ def check_one(k, seg, contigs, ans):
             return name + " printed out of order (harness)"
     cnt = {}
     for c in contigs:
-        for v in kmers_of(c, k):
+        for v in (kmers_of_fast(c, k) if len(c) > 3000 else kmers_of(c, k)):
             cnt[v] = cnt.get(v, 0) + 1
     once = sorted(v for v, n in cnt.items() if n == 1)
     more = sorted(v for v, n in cnt.items() if n > 1)
@@ -324,6 +386,15 @@ def oracle(case_, impl):
                 return "splitter set changes with the " + ("contig order" if tag == "perm" else "thread count")
             if tag == "same" and i1 != i2:
                 return "answers differ between thread counts"
+            return None
+        if t[0] == "big":
+            k, seg, ref = int(t[1]), int(t[2]), parse_ref(t[5])
+            i1, i2 = impl.split(" | ")
+            why = check_one(k, seg, ref, parse_answer(i1))
+            if why:
+                return why
+            if i1 != i2:
+                return "answers differ between thread counts %s and %s on a large reference" % (t[3], t[4])
             return None
         if t[0] == "rns":
             vb = int(t[1])
